@@ -102,9 +102,11 @@ def layout(rng, form_texts):
     line, col = 1, 1
     extents, positions = [], []
 
+    eol = "\r\n" if rng.random() < 0.3 else "\n"          # a CR before the LF is white space at the end of the line, not a line
+
     def emit(s):
         nonlocal line, col
-        for ch in s:
+        for ch in (s.replace("\n", eol) if eol != "\n" else s):
             out.append(ch)
             if ch == "\n":
                 line += 1; col = 1
